@@ -14,7 +14,7 @@
 (*  - Languages are compared SYMBOLICALLY (Lang!EqD over the atoms of the  *)
 (*    group), i.e. over all 1 112 064 scalar values, without enumeration.  *)
 (***************************************************************************)
-EXTENDS Algo, TLC, Json, IOUtils
+EXTENDS Algo, Front, TLC, Json, IOUtils
 
 Rec == ndJsonDeserialize(IOEnv.TRACE)
 
@@ -348,7 +348,74 @@ TObs ==
   /\ pc' = "done" /\ l' = l + 1
   /\ UNCHANGED <<G, tcs, run, memo>>
 
-Next == \/ TGroup \/ TTc \/ TEnd \/ TRun \/ TPre \/ TCl0 \/ TCl1 \/ TCl2 \/ TTrie \/ TMin
+(***************************************************************************)
+(* S0 and the front ends: builder histories (C07 C10 C14 C17)              *)
+(***************************************************************************)
+FrontProp(front) == CASE front = "rust" -> "C10" [] front = "py" -> "C14" [] front = "wasm" -> "C17"
+
+EmitH(props, kind, h, k, extra) ==
+  PrintT(ToJson([verdict |-> kind, props |-> props, g |-> 0, r |-> 0, h |-> h, k |-> k,
+                 first |-> kind, widen |-> 0, explained |-> "", extra |-> extra]))
+JudgeH(ok, props, kind, h, k, extra) == IF ok THEN TRUE ELSE EmitH(props, kind, h, k, extra)
+
+ToCfg(c) == [f \in DOMAIN DefaultCfg |-> c[f]]
+MemoFind(mm, key) == LET S == {i \in DOMAIN mm : mm[i].key = key} IN
+                     IF S = {} THEN 0 ELSE mm[CHOOSE i \in S : TRUE].sid
+
+RECURSIVE HistFold(_, _, _, _, _, _)
+HistFold(front, h, ops, k, objs, mm) ==
+  IF k > Len(ops) THEN TRUE
+  ELSE LET op == ops[k]
+           known == op.op = "new" \/ op.o \in DOMAIN objs
+       IN IF ~known THEN JudgeH(FALSE, {"TOOL"}, "history-unknown-object", h, k, "")
+          ELSE LET r == Step(front, objs, op)
+                   P == FrontProp(front)
+                   okOutcome == op.ok = r.ok /\ (r.ok \/ op.msg = r.msg)
+                   isBuild == op.op = "build" /\ op.ok
+                   key == IF isBuild THEN <<objs[op.o].set, CfgKeyB(r.cfg)>> ELSE <<>>
+                   prev == IF isBuild THEN MemoFind(mm, key) ELSE 0
+                   mm2 == IF isBuild /\ prev = 0 THEN Append(mm, [key |-> key, sid |-> op.sid]) ELSE mm
+               IN /\ JudgeH(okOutcome, {"C07", P}, "history-outcome", h, k, op.msg)
+                  /\ JudgeH(AliasOk(front, op), {P}, "history-alias", h, k, "")
+                  /\ (~isBuild \/
+                        /\ JudgeH(ToCfg(op.cfg) = r.cfg, {"TOOL"}, "history-cfg-belief", h, k, "")
+                        /\ JudgeH(prev = 0 \/ prev = op.sid, {P, "C10"}, "history-nondeterministic", h, k, "")
+                        /\ (IF front = "py"
+                            THEN JudgeH(PyRewrite(op.libcps, r.cfg) = op.outcps, {"C14"}, "py-rewrite", h, k, "")
+                                 /\ JudgeH(~r.cfg.escape \/ ~HasBraceEscapeFrom(op.outcps, 1), {"C14"}, "py-brace-escape-left", h, k, "")
+                                 /\ JudgeH(op.compiles, {"C14"}, "py-compile", h, k, "")
+                                 /\ JudgeH(AnyClass(r.cfg) \/ r.cfg.surr \/ op.fullmatch, {"C14"}, "py-fullmatch", h, k, "")
+                            ELSE JudgeH(op.sid = op.libsid, {P}, "front-differs-from-library", h, k, "")))
+                  /\ HistFold(front, h, ops, k + 1, r.objs, mm2)
+
+THist == /\ IsEvent("hist") /\ pc = "idle"
+         /\ HistFold(Ev.front, Ev.h, Ev.ops, 1, [x \in {} |-> 0], <<>>)
+         /\ l' = l + 1 /\ cnt' = Bump({"hist-" \o Ev.front})
+         /\ UNCHANGED <<pc, G, tcs, run, memo>>
+
+TMulti == /\ IsEvent("multi") /\ pc = "idle"
+          /\ JudgeH(\A i \in DOMAIN Ev.sids : Ev.sids[i] = Ev.sids[1], {"C10"}, "multi-" \o Ev.what, Ev.h, 0, "")
+          /\ l' = l + 1 /\ cnt' = Bump({"multi-" \o Ev.what})
+          /\ UNCHANGED <<pc, G, tcs, run, memo>>
+
+(***************************************************************************)
+(* the command-line tool (C12)                                             *)
+(***************************************************************************)
+TCli ==
+  /\ IsEvent("cli") /\ pc = "idle"
+  /\ LET e == Ev
+         x == CliExpect(ToSet(e.flags), e.minrep, e.minsub, e.channel, e.args, e.content, e.readable, e.utf8)
+         graceful == e.exit # 0 /\ e.exit # 101 /\ ~e.panicked /\ e.stderr_lines >= 1
+     IN CASE x.kind = "usage" -> JudgeH(graceful, {"C12"}, "cli-usage-error", e.h, 0, "")
+          [] x.kind = "error" -> JudgeH(graceful /\ e.stdout = <<>>, {"C12"}, "cli-error-path", e.h, 0, "")
+          [] x.kind = "ok" ->
+               /\ JudgeH(e.believed /\ ToCfg(e.cfg) = x.cfg /\ e.tcs = x.tcs, {"TOOL"}, "cli-belief", e.h, 0, "")
+               /\ JudgeH(e.exit = 0 /\ ~e.panicked, {"C12"}, "cli-exit", e.h, 0, "")
+               /\ JudgeH(e.libok /\ e.stdout = e.lib \o <<10>>, {"C12"}, "cli-output", e.h, 0, "")
+  /\ l' = l + 1 /\ cnt' = Bump({"cli"})
+  /\ UNCHANGED <<pc, G, tcs, run, memo>>
+
+Next == \/ THist \/ TMulti \/ TCli \/ TGroup \/ TTc \/ TEnd \/ TRun \/ TPre \/ TCl0 \/ TCl1 \/ TCl2 \/ TTrie \/ TMin
         \/ TExpr \/ TSelfCheck \/ TFallback \/ TFinal \/ TOutPanic \/ TOut \/ TObs
 
 Spec == Init /\ [][Next]_vars
